@@ -285,7 +285,9 @@ func (vm *Vm) runCatch(ctx context.Context, b []byte) ([]byte, error) {
 		if err != nil {
 			return b, err
 		}
-		b = bh
+		// the fetched code becomes the pending buffer and later moves append to it:
+		// copy it, the slice belongs to the resource and may be shared between sessions
+		b = append([]byte{}, bh...)
 	}
 	return b, nil
 }
